@@ -274,12 +274,15 @@ from contracts import C14_flatmap
 UNITS += C14_flatmap.UNITS
 from contracts import C14_optional
 UNITS += C14_optional.UNITS
+from contracts import C14_twolevel
+UNITS += C14_twolevel.UNITS
 from contracts import C14_heap
 UNITS += C14_heap.UNITS
 from contracts import C14_pra
 UNITS += C14_pra.UNITS
 
-EXPLANATION = ('optional<T> (contracts/C14_optional.py): constructors, copy, assign(optional|T), get, destroy, destructor against std::optional with a ghost live bit for LazyObject.  '
+EXPLANATION = ('TwoLevelIteratorA::safe_decrement / safe_decrement_dispatch for bidirectional and forward-only iterators (contracts/C14_twolevel.py).  '
+               'optional<T> (contracts/C14_optional.py): constructors, copy, assign(optional|T), get, destroy, destructor against std::optional with a ghost live bit for LazyObject.  '
                'flat_map (contracts/C14_flatmap.py): resort, both range constructors, emplace, find as a typestate contract (sorted by key, one entry per key).  '
                'gslist<T,4> non-concurrent (contracts/C14_gslist.py): emplace_front, pop_front, front, empty, extend_first, shrink_first as local contracts on the head block and its successor (an emptied head block may precede non-empty ones).  '
                'MinHeap (contracts/C14_heap.py): range constructor, push, pop, pop_internal, top as a TYPESTATE contract over the wrapped container (for which comparator it is a heap; std::make_heap/push_heap/pop_heap are stubs with the standard\'s preconditions): the container is always a heap for revCmp and every std algorithm gets the comparator the heap was built for, so top()/pop() hand out the minimum.  '
